@@ -1,6 +1,7 @@
 (* C06 -- Lifted scan and vmap equal the explicit loop and the per-example stack. *)
 From Coq Require Import ZArith.
 From Flaxm Require Import Lib.Harness Model.NnxFilters Model.NnxLift Model.LinenLoop Model.Axes Proofs.NnxLift Proofs.LinenLoop Proofs.Axes.
+From Flaxm Require Model.Filters Model.Lift Proofs.Lift.
 
 (* nn.scan: for every body that leaves the broadcast collections alone, every assignment of variables to axis /
    broadcast / carry, length, direction, carry and inputs, the lifted scan IS the unrolled Python loop over sliced
@@ -57,6 +58,24 @@ Proof. vm_compute. repeat split; try reflexivity; try discriminate. Qed.
 Theorem C06_remat_scan_is_loop : forall C W (layer : C -> W -> C) t c, nscan C W layer c t = fold_left layer (nflatten W t) c.
 Proof. exact @nested_scan_is_loop. Qed.
 Print Assumptions C06_remat_scan_is_loop.
+
+(* variable_axes entries wrapped in flax.typing.In / Out (lift._split_in_out_axes feeding lift.pack): a collection that only
+   Out(axis) entries match is not handed to the mapped / scanned function, whatever the caller passes in; a collection that
+   only In(axis) entries match comes back unchanged, whatever the function does; an entry without a marker is both *)
+Theorem C06_out_only_not_sliced_in : forall xs vars cv,
+  (forall f m, In (f, m) xs -> Flaxm.Model.Filters.in_filter f (fst cv) = true -> Flaxm.Model.Lift.is_out m = true) ->
+  ~ In cv (Flaxm.Model.Lift.inner_vars vars (Flaxm.Model.Lift.in_filters xs)).
+Proof. exact Flaxm.Proofs.Lift.out_only_not_lifted_in. Qed.
+Print Assumptions C06_out_only_not_sliced_in.
+Theorem C06_in_only_not_written_back : forall Y body om xs mf vars y vars' c,
+  Flaxm.Model.Lift.pack Y body om (Flaxm.Model.Lift.in_filters xs) (Flaxm.Model.Lift.out_filters xs) mf vars = Flaxm.Model.Lift.POk Y y vars' ->
+  (forall f m, In (f, m) xs -> Flaxm.Model.Filters.in_filter f c = true -> Flaxm.Model.Lift.is_in m = true) ->
+  Flaxm.Model.Lift.cv_get c vars' = Flaxm.Model.Lift.cv_get c vars.
+Proof. exact Flaxm.Proofs.Lift.in_only_not_written_back. Qed.
+Print Assumptions C06_in_only_not_written_back.
+Theorem C06_unmarked_axis_is_in_and_out : forall xs f a, In (f, Flaxm.Model.Lift.AxBoth a) xs ->
+  In f (Flaxm.Model.Lift.in_filters xs) /\ In f (Flaxm.Model.Lift.out_filters xs).
+Proof. exact Flaxm.Proofs.Lift.unmarked_is_both. Qed.
 
 Example C06_broadcast_write_refuted :
   let sa := [(NEllipsis, SNone)] in
